@@ -219,6 +219,8 @@ def cache_families(kind, kt, vt, strat):
         [[S("GetOrSet", "k50", v(), d=50)], [S("Clear"), S("Get", "k1")], [S("Get", "k1"), S("Count")]], final=["k1", "k50"])
     add("G13-grow-vs-deleteexpired", gkeys, gpre + [S("Set", "k60", v(), d=5), S("Tick", d=6)],
         [[S("Set", "k50", v(), d=50)], [S("DeleteExpired")], [S("Set", "k60", v(), d=50), S("Get", "k60")]], final=["k1", "k50", "k60"])
+    add("G13b-grow-vs-removers", gkeys, gpre,
+        [[S("Set", "k50", v(), d=50)], [S("Delete", "k1"), S("Get", "k1")], [S("GetAndDelete", "k2"), S("Get", "k1"), S("Delete", "k1")]], final=["k1", "k2", "k50"])
     # G10 default expiration changed while stores run
     add("G10-default-swap", two, [],
         [[S("SetDefaultExpiration", d=7)], [S("SetDefault", "k1", v()), S("GetWithExpiration", "k1")], [S("Set", "k2", v(), d=-1000000000), S("GetWithTTL", "k2"), S("DefaultExpiration")]])
